@@ -161,14 +161,18 @@ def _check(prop, tier, seed, replay, work, t0):
         elif x["rejected_at"]:
             rejected.append("scenario %d (txn=%s %s faults=%s): event %d is no step of the specification: %s" % (
                 hdr["id"], hdr["txn"], "disk" if hdr["disk"] else "memory", hdr["faults"], x["rejected_at"], json.dumps(evs[x["rejected_at"] - 1])[:300] if x["rejected_at"] <= len(evs) else "end"))
-    if rejected and not violations:
-        # the implementation did something the specification does not allow although no property is violated: the
-        # binding is broken (or the specification too strict) - not a verdict
-        raise vlib.HarnessError("TracePipeline.tla rejected %d of %d runs:\n  %s" % (len(rejected), len(pres), "\n  ".join(rejected[:8])))
+    if rejected:
+        # the implementation did something the design specification does not allow although no property formula is violated:
+        # drift between code and Pipeline.tla (or a specification that is too strict) - reported, never a verdict; the
+        # verdict of these runs rests on TraceE2E.tla and on Pipeline.tla's invariants up to the rejected event
+        print("SPEC-DRIFT: TracePipeline.tla rejected %d of %d runs:\n  %s" % (len(rejected), len(pres), "\n  ".join(rejected[:8])))
+        for x in pres:
+            if x["rejected_at"] and not x["invariant"]:
+                vlib.save_replay(prop, "drift-%s" % os.path.basename(x["trace"]), {"rejected_at": x["rejected_at"], "events": [json.loads(l_) for l_ in open(x["trace"])]})
     nscen += e2e_scen
     cov = {"states": r["distinct"] + pdist, "transitions": r["generated"] + pgen, "traces_validated_against_impl": nscen, "samples": samples[:2], "exhaustive": False,
            "end_to_end_scenarios": e2e_scen, "end_to_end_faults": e2e_faults,
-           "pipeline_design_runs": pruns, "pipeline_traces_replayed_on_Pipeline_tla": len(pres), "pipeline_trace_events": pevents,
+           "pipeline_design_runs": pruns, "pipeline_traces_replayed_on_Pipeline_tla": len(pres), "pipeline_trace_events": pevents, "pipeline_traces_rejected": len(rejected), "spec_drift": bool(rejected),
            "delivered_kinds": kinds,
            "explanation": "D: every combination of source (same id / failover with previous id and switch offset / new id; backlog window), stored position and cache shape "
                           "for offsets 0..%d, shared prefix %d (%d configurations). Real code: %d seeded combinations on disk and memory caches populated by real writers; %d end-to-end runs of the whole pipeline with up to two faults (connection drop, drop inside a command, fail-over to a new id, backlog loss, target crash)" % (mo, s, r["distinct"] // 2, nscen - e2e_scen, e2e_scen)}
